@@ -31,6 +31,10 @@ pub struct VField {
     pub noise_at: String,
 }
 
+/// Vec-shaped field types (length = number of elements), Option-wrapped and with Option / Vec /
+/// numeric elements
+pub const VEC_TYPES: &[&str] = &["Vec<String>", "Option<Vec<String>>", "Vec<Option<String>>", "Vec<u32>", "Vec<Vec<String>>", "Option<Vec<Option<String>>>", "Vec<Option<f64>>"];
+
 pub const NOISE: &[&str] = &[
     "custom(function = \"check_email_length\")",
     "custom(function = \"validators::url_or_range\", message = \"length(min = 1) or email\")",
@@ -229,6 +233,32 @@ pub fn expected_checks(f: &VField) -> Vec<(String, Option<f64>, Option<String>, 
     out
 }
 
+/// constraints found on the *elements* of an array-like schema (the validators of a field speak
+/// about the field's own value: the length of a Vec, never the length of its strings)
+fn element_checks(z: &Z, below_container: bool, out: &mut Vec<String>) {
+    match z {
+        Z::Optional(i) | Z::Nullable(i) | Z::Lazy(i) => element_checks(i, below_container, out),
+        Z::String { checks, .. } | Z::Number { checks, .. } => {
+            if below_container {
+                out.extend(checks.iter().map(|c| format!("element .{}({})", c.name, c.value.clone().unwrap_or_default())));
+            }
+        }
+        Z::Array { inner, checks } => {
+            if below_container {
+                out.extend(checks.iter().map(|c| format!("inner array .{}({})", c.name, c.value.clone().unwrap_or_default())));
+            }
+            element_checks(inner, true, out);
+        }
+        Z::Set(i) => element_checks(i, true, out),
+        Z::Map(a, b) | Z::Record(a, b) => {
+            element_checks(a, true, out);
+            element_checks(b, true, out);
+        }
+        Z::Tuple(v) => v.iter().for_each(|x| element_checks(x, true, out)),
+        _ => {}
+    }
+}
+
 fn base_and_checks(z: &Z) -> (&'static str, Vec<Check>) {
     match z {
         Z::Optional(i) | Z::Nullable(i) => base_and_checks(i),
@@ -357,6 +387,11 @@ pub fn check_struct(fields: &[VField], stats: &mut Stats) -> Vec<Failure> {
                 }
             }
         }
+        let mut on_elements = vec![];
+        element_checks(z, false, &mut on_elements);
+        if !on_elements.is_empty() {
+            fails.push(mk("constraint_on_elements", vec![], on_elements.join(", "), "the declared constraints on the field's own value only (array length), none on its elements".into()));
+        }
         for c in observed {
             // what a validator outside the property turns into is not specified; only the four
             // constraint families of the property are policed
@@ -385,14 +420,15 @@ fn pick_msg(t: &mut Tape) -> Option<String> {
 
 pub fn random_field(t: &mut Tape, idx: usize) -> VField {
     let name = format!("{}{}", *t.choose(&["name", "age", "items", "mail", "site", "score", "note"]), idx);
-    let kind = t.pick(5);
+    let kind = t.pick(7);
     let numeric = *t.choose(&["i32", "u8", "f64", "u64", "i64", "f32"]);
     let (ty, family) = match kind {
         0 => ("String".to_string(), "str"),
         1 => ("Option<String>".to_string(), "str"),
         2 => (numeric.to_string(), "num"),
         3 => (format!("Option<{}>", numeric), "num"),
-        _ => ("Vec<String>".to_string(), "vec"),
+        4 => ("Vec<String>".to_string(), "vec"),
+        _ => (t.choose(VEC_TYPES).to_string(), "vec"),
     };
     let mut validators = vec![];
     if !t.chance(1, 4) {
@@ -483,6 +519,14 @@ pub fn grid() -> Vec<Vec<VField>> {
     out.push(vec![VField { name: "mail".into(), ty: "String".into(), validators: vec![V::Email { message: None }], split: false, noise: vec![], noise_at: String::new() }, plain("other")]);
     out.push(vec![VField { name: "site".into(), ty: "Option<String>".into(), validators: vec![V::Url { message: None }], split: false, noise: vec![], noise_at: String::new() }, plain("other")]);
     out.push(vec![VField { name: "mail".into(), ty: "String".into(), validators: vec![V::Email { message: Some("bad".into()) }], split: false, noise: vec![], noise_at: String::new() }, plain("other")]);
+    for (k, ty) in VEC_TYPES.iter().enumerate() {
+        let (min, max) = match k % 3 {
+            0 => (Some("2".to_string()), Some("5".to_string())),
+            1 => (Some("1".to_string()), None),
+            _ => (None, Some("10".to_string())),
+        };
+        out.push(vec![VField { name: "items".into(), ty: ty.to_string(), validators: vec![V::Length { min, max, message: if k % 2 == 0 { Some("how many".into()) } else { None } }], split: false, noise: vec![], noise_at: String::new() }, plain("other")]);
+    }
     // validators outside the property, alone on a field and beside a declared length, at every position
     for (k, n) in NOISE.iter().enumerate() {
         for (a, at) in NOISE_AT.iter().enumerate() {
@@ -495,7 +539,7 @@ pub fn grid() -> Vec<Vec<VField>> {
 }
 
 pub fn run(ctx: &Ctx) {
-    ctx.set_rule("structs of 1-4 fields (String, Option<String>, numeric, Option<numeric>, Vec<String>; some without validators) carrying length/range/email/url with min/max from pools covering 0, small, negative, decimal, exponent, u64::MAX, 2^53+1, 1e308 and messages from a pool of 24 adversarial strings or random Unicode strings; a systematic grid of every (validator, number) and (validator, message) pair; validators outside the property (custom, regex, required, nested, must_match, contains, does_not_contain, non_control_character, with keyword-laden arguments) placed before/after the declared ones in the same or in their own attribute (grid: 10 x 4 positions, alone and beside declared validators; random: 1 field in 4); plus proptest-generated structs; evaluation = one field; non-trivial = a validator with a number outside 0..100 or a message outside [A-Za-z ]*, distinct by field model");
+    ctx.set_rule("structs of 1-4 fields (String, Option<String>, numeric, Option<numeric>, Vec<String> and six more Vec shapes: Option<Vec<..>>, Vec<Option<..>>, Vec<u32>, Vec<Vec<..>>, ...; some without validators) carrying length/range/email/url with min/max from pools covering 0, small, negative, decimal, exponent, u64::MAX, 2^53+1, 1e308 and messages from a pool of 24 adversarial strings or random Unicode strings; a systematic grid of every (validator, number) and (validator, message) pair; validators outside the property (custom, regex, required, nested, must_match, contains, does_not_contain, non_control_character, with keyword-laden arguments) placed before/after the declared ones in the same or in their own attribute (grid: 10 x 4 positions, alone and beside declared validators; random: 1 field in 4); plus proptest-generated structs; evaluation = one field; non-trivial = a validator with a number outside 0..100 or a message outside [A-Za-z ]*, distinct by field model");
     ctx.set_exhaustive(false);
     ctx.assume("declared numbers are read with Rust's f64 parser, declared messages are read back from the rendered literal with syn::LitStr::value()");
     ctx.assume("the Zod model of the harness decodes method chains (.min/.max/.email/.url, {message})");
